@@ -24,6 +24,7 @@ LEVEL = 'other'
 X = sp.Symbol('x', integer=True, nonnegative=True)
 KCASES = [('k=0', sp.Integer(0)), ('k>=1', X + 1)]
 RED, BLACK = 0, 1
+SPINES = (0, 1, 2)
 
 
 def iszero(e):
@@ -145,6 +146,10 @@ def run(ctx):
     rep.trusted += ['lib/symx.py, lib/shape.py, lib/tree.py', 'the induction argument over the two fix-up loops (DESIGN 4 C02)']
     rep.assumptions += ['packed-pointer build (A_SIZE_POINTER > 1)', 'nodes are 2-byte aligned; the comparison callback is a pure total order and does not touch the tree']
     mod = ctx.module('rbt')
+    if ctx.tier == 'thorough' and len(KCASES) == 2:
+        KCASES.extend([('k=1', sp.Integer(1)), ('k>=2', X + 2)])
+        global SPINES
+        SPINES = (0, 1, 2, 3)
     rb = RB(ctx, mod)
     insert_step(rb)
     fix_step(rb)
@@ -443,7 +448,7 @@ def unlink_patterns():
                     for kids in ('none', 'l', 'r'):
                         out.append(dict(kind='simple', pos=pos, c0=c0, cS0=cS0, cX=cX, kids=kids))
                     # (c): two children, successor at spine depth k
-                    for k in (0, 1, 2):
+                    for k in SPINES:
                         for cY in (BLACK, RED):
                             for yk in (False, True):
                                 for cols in itertools.product((BLACK, RED), repeat=k):
@@ -466,7 +471,7 @@ def build_unlink(p):
         chain = []
     else:
         k = p['k']
-        chain = ['Y'] if k == 0 else (['R', 'Y'] if k == 1 else ['R', 'M', 'Y'])
+        chain = {0: ['Y'], 1: ['R', 'Y'], 2: ['R', 'M', 'Y'], 3: ['R', 'M', 'M2', 'Y']}[k]
         KY = None
         if p['yk']:
             fr.node('KY', l=None, r=None, p='Y', tag=RED)
